@@ -88,6 +88,7 @@ func vJoinSetup(timed bool) *vJoinEnv {
 		}
 		e.outs = append(e.outs, s)
 		e.lens = append(e.lens, len(s))
+		vAdvance() // real time passes between the discipline's own clock readings (e.g. while it was blocked on this send)
 		e.times = append(e.times, vNow())
 		for _, x := range s {
 			e.emitted = append(e.emitted, x)
